@@ -30,7 +30,7 @@ def kindOf : String → Except String Kind
   | "tuple" => pure .tuple | "map" => pure .map | "arrayPos" => pure .arrayPos | "dequePos" => pure .dequePos
   | "tuplePos" => pure .tuplePos | "struct" => pure .struct | "inline" => pure .inline
   | "anyOf" => pure .anyOf | "oneOf" => pure .oneOf | "allOf" => pure .allOf | "notF" => pure .notF
-  | "any" => pure .any | "owner" => pure .owner | "document" => pure .document | "mapping" => pure .mapping | "names" => pure .names
+  | "any" => pure .any | "owner" => pure .owner | "misfit" => pure .misfit | "document" => pure .document | "mapping" => pure .mapping | "names" => pure .names
   | "required" => pure .required | "enumValues" => pure .enumValues | "default" => pure .default
   | "schema" => pure .schema | "fieldState" => pure .fieldState
   | s => throw s!"unknown kind {s}"
@@ -38,7 +38,7 @@ def kindOf : String → Except String Kind
 def catOf : String → Except String Cat
   | "none" => pure .none | "number" => pure .number | "string" => pure .string | "scalar" => pure .scalar
   | "any" => pure .any | "untyped" => pure .untyped | "coll" => pure .coll | "struct" => pure .struct
-  | "inline" => pure .inline | "wrap" => pure .wrap
+  | "inline" => pure .inline | "wrap" => pure .wrap | "enum" => pure .enum
   | s => throw s!"unknown cat {s}"
 
 partial def shapeOf (j : Json) : Except String Shape :=
